@@ -78,13 +78,15 @@ def chain_class(cfg, k):
     return 'chain=%d' % k
 
 
-def thorough_aux(modname, kinds, nreq=40, max_bits=512, groups=None, quick_kinds=()):
+def thorough_aux(modname, kinds, nreq=40, max_bits=512, groups=None, quick_kinds=(), exh=False):
     """returns an extra_passes(runmod, tier, seed, st, jobs) function running the module's own requests under the given aux kinds"""
     def extra_passes(runmod, tier, seed, st, jobs):
         import importlib
         import aux
         me = importlib.import_module(modname)
         cov = {}
+        if exh:
+            cov['exhaustive16_pass'] = aux.exhaustive16(runmod, me, None, tier, seed, st, jobs)
         use = list(kinds) if tier == 'thorough' else list(quick_kinds)
         cfgs = [c for c in me.configs(tier) if core.Cfg(c).bits <= max_bits]
         for kind in use:
